@@ -406,37 +406,6 @@ func (noFeedQuerier) QueryCurrentFeeds() (*feedstypes.QueryCurrentFeedsResponse,
 	return nil, fmt.Errorf("unused")
 }
 
-// ---- garbage-collection gate ----------------------------------------------------------------------------
-//
-// The scheduler's channel shadows are keyed by the address of the real channel.  A channel that the
-// daemon code drops (gasCh / errCh / resultsCh / failureCh of one try) may be collected and its address
-// handed to a channel made later in the same execution, which would then inherit the dead channel's
-// buffered values.  Work-around inside this package: the collector is switched off while executions are
-// in progress; every gcEvery executions all workers are held at an execution boundary and one collection
-// is run.
-
-const gcEvery = 1500
-
-var (
-	gcGate  sync.RWMutex
-	gcCount int64
-	gcMu    sync.Mutex
-)
-
-func execBegin() { gcGate.RLock() }
-func execEnd() {
-	gcGate.RUnlock()
-	gcMu.Lock()
-	gcCount++
-	due := gcCount%gcEvery == 0
-	gcMu.Unlock()
-	if due {
-		gcGate.Lock()
-		runtime.GC()
-		gcGate.Unlock()
-	}
-}
-
 // ---- scenario body and oracle ---------------------------------------------------------------------------
 
 func feedsOf(poll string) []feedstypes.FeedWithDeviation {
@@ -450,7 +419,6 @@ func feedsOf(poll string) []feedstypes.FeedWithDeviation {
 func scenarioB(sc ScB) gosched.Scenario {
 	return gosched.Scenario{Name: sc.Name, New: func(worker int) (func(), func(*vsched.Sched) (string, []engine.Violation)) {
 		e := getEnvB()
-		execBegin()
 		r := &runB{e: e, sc: sc, subs: map[string]*subInfo{}, hashes: map[string]string{}, txState: map[string]int{}, txPolls: map[string]int{}, tags: map[string]bool{}}
 		body := func() {
 			pending := &vsync.Map{}
@@ -507,7 +475,6 @@ func scenarioB(sc ScB) gosched.Scenario {
 			r.inspected = true
 		}
 		check := func(s *vsched.Sched) (string, []engine.Violation) {
-			defer execEnd()
 			if len(s.Panics) > 0 || s.Deadlock || s.Livelock {
 				return "aborted", r.viol
 			}
